@@ -69,13 +69,32 @@ def cases(tier, seed):
         for si in range(3):
             for lay in LAYOUTS:
                 yield ('long', name, si, lay, seed)
+    # integer-typed phases (whole radians are legitimate phase values)
+    for s in enum.sequences(range(5), 1, min(L, 6)):
+        yield ('seqint', s, 1, 'vector', seed)
+    # larger scope: many thousands of cycles in one column (label counters, caches and block sizes live here)
+    for ncyc in (300, 33000) if tier == 'quick' else (300, 5000, 33000, 70000):
+        yield ('giant', ncyc, 1, 'vector', seed)
 
 
 def decode_case(c):
     c = list(c)
-    if c[0] == 'seq':
+    if c[0] in ('seq', 'seqint'):
         c[1] = tuple(c[1])
     return tuple(c)
+
+
+INT_ALPHABET = (0, 1, 3, 5, 6)
+
+
+def giant_phase(ncyc, seed):
+    """ncyc cycles of 3..6 samples each (deterministic pattern), strictly increasing inside a cycle."""
+    lens = 3 + (np.arange(ncyc) * 7 + seed) % 4
+    start = np.cumsum(lens) - lens
+    idx = np.arange(int(lens.sum()))
+    cyc = np.repeat(np.arange(ncyc), lens)
+    within = idx - start[cyc]
+    return (within + 0.5) / lens[cyc] * 2 * np.pi
 
 
 def build_phase(case):
@@ -83,6 +102,10 @@ def build_phase(case):
     if kind == 'seq':
         a = np.array(alphabet(seed))
         col = a[list(s)]
+    elif kind == 'seqint':
+        col = np.array(INT_ALPHABET, dtype=np.int64)[list(s)]
+    elif kind == 'giant':
+        col = giant_phase(s, seed)
     else:
         col = dict(long_phases(seed))[s]
     if lay == 'vector':
@@ -98,12 +121,13 @@ def build_phase(case):
 def ref_partition(col, step):
     """Reference: labels for return_good=False, and the list of wrap-delimited segments."""
     n = len(col)
-    wraps = [i for i in range(1, n) if abs(col[i] - col[i - 1]) > step]
+    colf = np.asarray(col, dtype=float)
+    mask = np.zeros(n, dtype=bool)
+    mask[1:] = np.abs(np.diff(colf)) > step
+    wraps = np.where(mask)[0].tolist()
     if not wraps:
         return np.full(n, -1, dtype=int), []
-    lab = np.zeros(n, dtype=int)
-    for w in wraps:
-        lab[w:] += 1
+    lab = np.cumsum(mask).astype(int)
     bnd = [0] + wraps + [n]
     return lab, [(bnd[i], bnd[i + 1]) for i in range(len(bnd) - 1)]
 
@@ -145,8 +169,24 @@ def check_case(case):
     viols = []
     anywrap = False
     trans = 0
-    for rg in (False, True):
+    for rg in (False, True, 'read-only'):
         ph_in = phase.copy()
+        if rg == 'read-only':
+            # a read-only array (memory map, broadcast view) with the same values must simply work
+            ph_in.setflags(write=False)
+            rg = False
+            try:
+                out = get_cycle_vector(ph_in, return_good=False, phase_step=step)
+                if not np.array_equal(ph_in, phase):
+                    viols.append(('input-modified', '%s: the phase array was changed' % describe(case)))
+            except Exception as e:
+                viols.append(('raise:%s:read-only-input' % type(e).__name__, '%r (read-only array) raised %r' % (describe(case), e)))
+                continue
+            trans += 1
+            lab0 = ref_partition(cols[0], step)[0]
+            if np.asarray(out).shape[0] != len(lab0) or not np.array_equal(np.asarray(out)[:, 0], lab0):
+                viols.append(('all:labels:read-only-input', '%s: read-only input gives different labels' % describe(case)))
+            continue
         try:
             out = get_cycle_vector(ph_in, return_good=rg, phase_step=step)
         except Exception as e:  # "detection never fails"
@@ -182,6 +222,10 @@ def describe(case):
     kind, s, si, lay, seed = case
     if kind == 'seq':
         return 'phase=%s step=%.4f layout=%s' % ([alphabet(seed)[i] for i in s], STEPS[si], lay)
+    if kind == 'seqint':
+        return 'integer-typed phase=%s step=%.4f' % ([INT_ALPHABET[i] for i in s], STEPS[si])
+    if kind == 'giant':
+        return 'synthetic phase with %d cycles of 3..6 samples, step=%.4f' % (s, STEPS[si])
     return 'long phase %s step=%.4f layout=%s' % (s, STEPS[si], lay)
 
 
